@@ -607,7 +607,23 @@ def parseTruncatedFloat (single : Bool) (integer fraction : Bytes) (exponent : I
   let mantExp := mantissaExponent exponent fraction.length truncated
   fallbackPath c integer fraction mantissa exponent mantExp true
 
-/-! ## de.rs under `float_roundtrip` -/
+/-! ## de.rs under `float_roundtrip`
+
+The digit collection of `de.rs` ends in one of four leaves; `Call` names the leaf and its arguments
+(what `de.rs` *presents to lexical*), `runCall` executes it. `single` (`self.single_precision`) and
+`positive` are only consulted at the leaves. -/
+
+/-- the leaf reached by `parse_integer`/`parse_number`/…/`f64_long_from_parts` and its arguments -/
+inductive Call where
+  /-- no float conversion by lexical: `ParserNumber::U64/I64`, or `F64(-(significand as f64))` -/
+  | number (r : NRes)
+  /-- `parse_exponent_overflow(positive, zero_significand, positive_exp)` -/
+  | expOverflow (zeroSignificand positiveExp : Bool)
+  /-- `f64_from_parts(positive, significand, exponent)` → `lexical::parse_concise_float(significand, exponent)` -/
+  | concise (significand : Nat) (exponent : Int)
+  /-- `f64_long_from_parts(positive, integer_end, exponent)` → `lexical::parse_truncated_float(&scratch[..integer_end], &scratch[integer_end..], exponent)` -/
+  | truncated (integer fraction : Bytes) (exponent : Int)
+deriving Repr, DecidableEq
 
 /-- the float a lexical call returned, as `de.rs` passes it on:
     ```
@@ -620,15 +636,16 @@ def finishFloat (single positive : Bool) (bits : Nat) : NRes :=
     let f : UInt64 := if single then Spec.Ieee32.F32.toF64 (UInt32.ofNat bits) else UInt64.ofNat bits
     .f64 (if positive then f else Spec.Ieee.F64.neg f)
 
-/-- `f64_from_parts` (`float_roundtrip`): `lexical::parse_concise_float(significand, exponent)` -/
-def f64FromParts (single positive : Bool) (significand : Nat) (exponent : Int) : NRes :=
-  finishFloat single positive (parseConciseFloat single significand exponent)
+/-- the leaves: `f64_from_parts`, `f64_long_from_parts` (both under `float_roundtrip`), `parse_exponent_overflow` -/
+def runCall (single positive : Bool) : Call → NRes
+  | .number r => r
+  | .expOverflow zeroSig positiveExp => exponentOverflow positive zeroSig positiveExp
+  | .concise sig e => finishFloat single positive (parseConciseFloat single sig e)
+  | .truncated integer fraction e => finishFloat single positive (parseTruncatedFloat single integer fraction e)
 
-/-- `f64_long_from_parts`: `integer = &scratch[..integer_end]`, `fraction = &scratch[integer_end..]`,
-    `lexical::parse_truncated_float(integer, fraction, exponent)` -/
-def f64LongFromParts (single positive : Bool) (scratch : Bytes) (integerEnd : Nat) (exponent : Int) : NRes :=
-  finishFloat single positive
-    (parseTruncatedFloat single (scratch.take integerEnd) (scratch.drop integerEnd) exponent)
+/-- `f64_long_from_parts`: `integer = &scratch[..integer_end]`, `fraction = &scratch[integer_end..]` -/
+def f64LongFromParts (scratch : Bytes) (integerEnd : Nat) (exponent : Int) : Call :=
+  .truncated (scratch.take integerEnd) (scratch.drop integerEnd) exponent
 
 /-- the exponent digits folded with the `i32` `overflow!` guard (`parse_exponent`, `parse_long_exponent`):
     `none` when the guard fires -/
@@ -640,29 +657,27 @@ def expDigits : Bytes → Option Nat
       | c :: cs => if overflowMacro exp (dig c) i32Max then none else go (exp * 10 + dig c) cs
     go (dig d) rest
 
-/-- `parse_exponent` (short significand): `final_exp = starting_exp.saturating_add/sub(exp)`, then `f64_from_parts` -/
-def parseExponent (single positive : Bool) (sig : Nat) (startExp : Int) (expNeg : Bool) (eds : Bytes) : NRes :=
+/-- `parse_exponent` (short significand): on overflow `zero_significand = significand == 0`; otherwise
+    `final_exp = starting_exp.saturating_add/sub(exp)`, then `f64_from_parts` -/
+def parseExponent (sig : Nat) (startExp : Int) (expNeg : Bool) (eds : Bytes) : Call :=
   match expDigits eds with
-  | none => exponentOverflow positive (sig == 0) (!expNeg)
-  | some exp =>
-    let finalExp := if !expNeg then satI32 (startExp + exp) else satI32 (startExp - exp)
-    f64FromParts single positive sig finalExp
+  | none => .expOverflow (sig == 0) (!expNeg)
+  | some exp => .concise sig (if !expNeg then satI32 (startExp + exp) else satI32 (startExp - exp))
 
 /-- `parse_long_exponent`: on overflow `zero_significand = self.scratch.iter().all(|&digit| digit == b'0')`;
     otherwise `final_exp = if positive_exp { exp } else { -exp }`, then `f64_long_from_parts` -/
-def parseLongExponent (single positive : Bool) (scratch : Bytes) (integerEnd : Nat) (expNeg : Bool) (eds : Bytes) : NRes :=
+def parseLongExponent (scratch : Bytes) (integerEnd : Nat) (expNeg : Bool) (eds : Bytes) : Call :=
   match expDigits eds with
-  | none => exponentOverflow positive (scratch.all (· == 0x30)) (!expNeg)
-  | some exp => f64LongFromParts single positive scratch integerEnd (if !expNeg then (exp : Int) else -(exp : Int))
+  | none => .expOverflow (scratch.all (· == 0x30)) (!expNeg)
+  | some exp => f64LongFromParts scratch integerEnd (if !expNeg then (exp : Int) else -(exp : Int))
 
 /-- `parse_long_decimal(positive, integer_end)`: the remaining fraction digits are pushed on the scratch buffer;
     then `e`/`E` → `parse_long_exponent`, otherwise `f64_long_from_parts(positive, integer_end, 0)` -/
-def parseLongDecimal (single positive : Bool) (scratch : Bytes) (integerEnd : Nat) (rest : Bytes)
-    (exp : Option (Bool × Bytes)) : NRes :=
+def parseLongDecimal (scratch : Bytes) (integerEnd : Nat) (rest : Bytes) (exp : Option (Bool × Bytes)) : Call :=
   let scratch := scratch ++ rest
   match exp with
-  | some (en, eds) => parseLongExponent single positive scratch integerEnd en eds
-  | none => f64LongFromParts single positive scratch integerEnd 0
+  | some (en, eds) => parseLongExponent scratch integerEnd en eds
+  | none => f64LongFromParts scratch integerEnd 0
 
 /-- ```
     fn parse_decimal_overflow(&mut self, positive: bool, significand: u64, exponent: i32) -> Result<f64> {
@@ -674,39 +689,37 @@ def parseLongDecimal (single positive : Bool) (scratch : Bytes) (integerEnd : Na
         let integer_end = self.scratch.len() - fraction_digits;
         self.parse_long_decimal(positive, integer_end)
     }``` -/
-def parseDecimalOverflow (single positive : Bool) (significand : Nat) (exponent : Int) (rest : Bytes)
-    (exp : Option (Bool × Bytes)) : NRes :=
+def parseDecimalOverflow (significand : Nat) (exponent : Int) (rest : Bytes) (exp : Option (Bool × Bytes)) : Call :=
   let s := itoa significand
   let fractionDigits := (-exponent).toNat
   let scratch : Bytes :=
     (if fractionDigits ≥ s.length + 1 then List.replicate (fractionDigits - (s.length + 1) + 1) 0x30 else []) ++ s
   let integerEnd := scratch.length - fractionDigits
-  parseLongDecimal single positive scratch integerEnd rest exp
+  parseLongDecimal scratch integerEnd rest exp
 
 /-- `parse_decimal` after the `.` (with `exponent_before_decimal_point = 0`, the only call in this build):
     digits folded with the `u64` `overflow!` guard; when it fires → `parse_decimal_overflow` with the
     digits still to be read; otherwise `e`/`E` → `parse_exponent`, else `f64_from_parts` -/
-def parseDecimal (single positive : Bool) (sig : Nat) (fds : Bytes) (exp : Option (Bool × Bytes)) : NRes :=
-  let rec go (sig : Nat) (expAfter : Int) : Bytes → NRes
-    | [] =>
-      match exp with
-      | some (en, eds) => parseExponent single positive sig expAfter en eds
-      | none => f64FromParts single positive sig expAfter
-    | c :: cs =>
-      if overflowMacro sig (dig c) u64Max then parseDecimalOverflow single positive sig expAfter (c :: cs) exp
-      else go (sig * 10 + dig c) (expAfter - 1) cs
-  go sig 0 fds
+def parseDecimalGo (exp : Option (Bool × Bytes)) (sig : Nat) (expAfter : Int) : Bytes → Call
+  | [] =>
+    match exp with
+    | some (en, eds) => parseExponent sig expAfter en eds
+    | none => .concise sig expAfter
+  | c :: cs =>
+    if overflowMacro sig (dig c) u64Max then parseDecimalOverflow sig expAfter (c :: cs) exp
+    else parseDecimalGo exp (sig * 10 + dig c) (expAfter - 1) cs
+
+def parseDecimal (sig : Nat) (fds : Bytes) (exp : Option (Bool × Bytes)) : Call := parseDecimalGo exp sig 0 fds
 
 /-- `parse_long_integer(positive, partial_significand)`: scratch = `itoa(partial_significand)` followed by the
     remaining integer digits; `.` → `parse_long_decimal(positive, scratch.len())`, `e` → `parse_long_exponent`,
     else `f64_long_from_parts(positive, scratch.len(), 0)` -/
-def parseLongInteger (single positive : Bool) (partialSig : Nat) (rest : Bytes) (frac : Option Bytes)
-    (exp : Option (Bool × Bytes)) : NRes :=
+def parseLongInteger (partialSig : Nat) (rest : Bytes) (frac : Option Bytes) (exp : Option (Bool × Bytes)) : Call :=
   let scratch := itoa partialSig ++ rest
   match frac, exp with
-  | some fds, e => parseLongDecimal single positive scratch scratch.length fds e
-  | none, some (en, eds) => parseLongExponent single positive scratch scratch.length en eds
-  | none, none => f64LongFromParts single positive scratch scratch.length 0
+  | some fds, e => parseLongDecimal scratch scratch.length fds e
+  | none, some (en, eds) => parseLongExponent scratch scratch.length en eds
+  | none, none => f64LongFromParts scratch scratch.length 0
 
 /-- `parse_integer`'s digit loop: `(significand, none)` at the end of the digits, or
     `(significand, some remaining)` when `overflow!(significand * 10 + digit, u64::MAX)` fires -/
@@ -714,23 +727,50 @@ def goInt (sig : Nat) : Bytes → Nat × Option Bytes
   | [] => (sig, none)
   | c :: cs => if overflowMacro sig (dig c) u64Max then (sig, some (c :: cs)) else goInt (sig * 10 + dig c) cs
 
-/-- `parse_integer` + `parse_number` of the `float_roundtrip` build on a scanned literal.
-    `single` is `self.single_precision` (set by `do_deserialize_f32`). -/
-def deFloatRoundtrip (single : Bool) (p : Parts) : NRes :=
-  let positive := !p.neg
+/-- `parse_integer` + `parse_number` of the `float_roundtrip` build on a scanned literal: which leaf, which arguments -/
+def deCall (p : Parts) : Call :=
   match goInt 0 p.int with
-  | (sig, some rest) => parseLongInteger single positive sig rest p.frac p.exp
+  | (sig, some rest) => parseLongInteger sig rest p.frac p.exp
   | (sig, none) =>
     match p.frac, p.exp with
-    | some fds, e => parseDecimal single positive sig fds e
-    | none, some (en, eds) => parseExponent single positive sig 0 en eds
+    | some fds, e => parseDecimal sig fds e
+    | none, some (en, eds) => parseExponent sig 0 en eds
     | none, none =>
-      if positive then .u64 sig
+      if !p.neg then .number (.u64 sig)
       else
         -- `(significand as i64).wrapping_neg()`, float if that is ≥ 0 (underflow or `-0`): `-(significand as f64)`
         let asI64 : Int := if sig ≥ 2 ^ 63 then (sig : Int) - 2 ^ 64 else sig
         let negv : Int := if asI64 == -(2 ^ 63) then asI64 else -asI64
-        if negv ≥ 0 then .f64 (Spec.Ieee.F64.neg (Spec.Ieee.F64.ofU64 sig)) else .i64 negv
+        .number (if negv ≥ 0 then .f64 (Spec.Ieee.F64.neg (Spec.Ieee.F64.ofU64 sig)) else .i64 negv)
+
+/-- the number `de.rs` + lexical produce for a scanned literal under `float_roundtrip`;
+    `single` is `self.single_precision` (set by `do_deserialize_f32`) -/
+def deFloatRoundtrip (single : Bool) (p : Parts) : NRes := runCall single (!p.neg) (deCall p)
+
+/-- which algorithm of lexical decides a call (for the evidence histogram and the known-finding tags) -/
+inductive Path where
+  | none | fast | moderate | special | bhSmall | bhLarge
+deriving Repr, DecidableEq
+
+def pathOfFallback (c : FC) (integer fraction : Bytes) (mantissa : Nat) (exponent mantExp : Int) (truncated : Bool) : Path :=
+  let (fp, valid) := moderatePath c mantissa mantExp truncated
+  if valid then .moderate
+  else if isSpecial c (intoDownwardFloat c fp) then .special
+  else
+    let integerDigits := integer.length
+    let start := if integerDigits == 0 then (fraction.takeWhile (· == 0x30)).length else 0
+    let sciExp := scientificExponent exponent integerDigits start
+    let count := min c.maxDigits (integerDigits + fraction.length - start)
+    if sciExp + 1 - (count : Int) ≥ 0 then .bhLarge else .bhSmall
+
+def pathOf (single : Bool) : Call → Path
+  | .number _ | .expOverflow _ _ => .none
+  | .concise sig e =>
+    if (fastPath single sig e).isSome then .fast else pathOfFallback (fc single) (itoa sig) [] sig e e false
+  | .truncated integer fraction e =>
+    let fraction := trimTrailingZeros fraction
+    let (m, t) := truncatedMantissa (integer ++ fraction) 0
+    pathOfFallback (fc single) integer fraction m e (mantissaExponent e fraction.length t) true
 
 /-- what C07 claims for an `f32` target: as `Model.Num.convertRoundtrip`, with binary32 rounding, the
     result handed to the visitor as the (exactly) widened `f64` -/
